@@ -312,16 +312,17 @@ Proof. apply ops_in_weaken. intros o. destruct o; simpl; tauto. Qed.
 (* what a scoped call that ran its closure looks like: the acquisition [w -> w1] (accounted, marker free, ending with every
    leaf taken on top of the table as it was), the closure-entry marker, user events [-> w2], then neither an acquisition
    nor a marker *)
-Definition scoped_shape (sc : scen) (t : tid) (c : nat) (m : mode) (w w' : world) : Prop :=
+Definition scoped_shape (sc : scen) (t : tid) (c : nat) (m : mode) (body : list csop) (w w' : world) : Prop :=
   exists w1 w2 evA evR,
     w_trace w1 = evA ++ w_trace w /\ Forall nomark_ev evA /\ Forall (by_thread t) evA /\ Forall rel_res_ok evA /\
     Forall norel_ev evA /\
     (forall l, hc t (w_raw w1 l) + releases_of l evA = hc t (w_raw w l) + acquires_of l evA) /\
     (forall x, w_raw w1 x = acq_all t m (kleaves (shape_of sc c)) (w_raw w) x) /\
+    run nopw t (closure m (gitems (shape_of sc c)) body) w1 = ((if existsb is_cpanic body then OPanic else ODone VUnit), w2) /\
     frame (emit w1 (EMark t 1)) w2 /\ w_trace w' = evR ++ w_trace w2 /\ Forall tail_ev evR.
 
-Definition is_scoped (o : apiop) : option (nat * mode) :=
-  match o with AAcquire c m (FScoped _ _ | FScopedTry _ _) => Some (c, m) | _ => None end.
+Definition is_scoped (o : apiop) : option (nat * mode * list csop) :=
+  match o with AAcquire c m (FScoped _ b | FScopedTry _ b) => Some (c, m, b) | _ => None end.
 
 Record call_out (sc : scen) (t : tid) (lc : tlocal) (o : apiop) (w : world) (out : outcome) (w' : world) : Prop := {
   cq_stop : stop_code (snd (api_fin (sc_env sc) lc o out)) = true -> is_acquire o = true;
@@ -332,9 +333,9 @@ Record call_out (sc : scen) (t : tid) (lc : tlocal) (o : apiop) (w : world) (out
            can_all m (kleaves (shape_of sc c)) (w_raw w) = true;
   cq_clean : stop_code (snd (api_fin (sc_env sc) lc o out)) = false ->
              exists evs, w_trace w' = evs ++ w_trace w /\ Forall clean_ev evs;
-  cq_scoped : forall c m, is_scoped o = Some (c, m) ->
+  cq_scoped : forall c m b, is_scoped o = Some (c, m, b) ->
               match snd (api_fin (sc_env sc) lc o out) with
-              | ROk | RPanicked => scoped_shape sc t c m w w'
+              | ROk | RPanicked => scoped_shape sc t c m b w w'
               | _ => exists evs, w_trace w' = evs ++ w_trace w /\ Forall nomark_ev evs
               end;
   (* whatever the outcome (a call cut because it has to wait included): no release by a non-holder *)
@@ -414,7 +415,7 @@ Section CallAcq.
         rewrite (shape_of_coll _ _ _ Hc). destruct (Nat.eqb n 2); reflexivity.
       + intros c' m' f' Heq _. inversion Heq; subst. rewrite (shape_of_coll _ _ _ Hc). exact Can.
       + intros _. apply (eff_tr _ _ _ (eff_trans _ _ _ _ _ E1 E2)).
-      + intros c' m' X; discriminate X.
+      + intros c' m' b' X; discriminate X.
       + apply clean_to_nobad, (eff_tr _ _ _ (eff_trans _ _ _ _ _ E1 E2)).
       + intros c' m' l' b' [X|X] _; discriminate X.
     - destruct L as [w1 R1].
@@ -424,7 +425,7 @@ Section CallAcq.
       rewrite Rc in R. inversion R; subst out w'. clear R.
       constructor; cbn [api_fin snd stop_code]; try (intros H; discriminate H); try reflexivity.
       + intros c' m' f' _ H. discriminate H.
-      + intros c' m' X; discriminate X.
+      + intros c' m' b' X; discriminate X.
       + fold a in R1. apply (raw_lock_nobad t m (e_am e) s (e_fuel e) w _ _ Ha ND Q Hf R1).
       + intros c' m' l' b' [X|X] _; discriminate X.
   Qed.
@@ -467,7 +468,7 @@ Section CallAcq2.
         rewrite (shape_of_coll _ _ _ Hc). destruct (Nat.eqb n 2); reflexivity.
       + intros c' m' f' Heq _. inversion Heq; subst. rewrite (shape_of_coll _ _ _ Hc). exact Can.
       + intros _. apply (eff_tr _ _ _ (eff_trans _ _ _ _ _ E1 E2)).
-      + intros c' m' X; discriminate X.
+      + intros c' m' b' X; discriminate X.
       + apply clean_to_nobad, (eff_tr _ _ _ (eff_trans _ _ _ _ _ E1 E2)).
       + intros c' m' l' b' [X|X] _; discriminate X.
     - assert (Rc : run nopw t (with_key true false
@@ -483,7 +484,7 @@ Section CallAcq2.
       + intros _ x. rewrite (eff_raw _ _ _ E1). reflexivity.
       + intros c' m' f' _ H. discriminate H.
       + intros _. apply (eff_tr _ _ _ E1).
-      + intros c' m' X; discriminate X.
+      + intros c' m' b' X; discriminate X.
       + apply clean_to_nobad, (eff_tr _ _ _ E1).
       + intros c' m' l' b' [X|X] _; discriminate X.
   Qed.
@@ -494,7 +495,7 @@ Section CallAcq2.
   Proof.
     intros R. destruct (can_all m (kleaves s) (w_raw w)) eqn:Can.
     - destruct (scoped_call_quiet t m (e_am e) s Ha ND (e_fuel e) lent body w Q Hf Can)
-        as [w2 [R2 [E2 [_ [_ [wa [wb [evR [Ra [Ea [Fb [Tb Ftl]]]]]]]]]]]].
+        as [w2 [R2 [E2 [_ [_ [wa [wb [evR [Ra [Ea [Rcl [Fb [Tb Ftl]]]]]]]]]]]]].
       fold a in R2. rewrite R2 in R. inversion R; subst out w'. clear R.
       assert (Fin : stop_code (snd (api_fin e lc (AAcquire c m (FScoped lent body))
                                    (if existsb is_cpanic body then OPanic else ODone (VNat 0)))) = false).
@@ -505,8 +506,8 @@ Section CallAcq2.
       + intros _ x. rewrite (ep_raw _ _ _ _ E2). reflexivity.
       + intros c' m' f' _ H. destruct (existsb is_cpanic body); discriminate H.
       + intros _. apply (ep_tr _ _ _ _ E2).
-      + intros c' m' X. cbn [is_scoped] in X. inversion X; subst c' m'.
-        assert (Sh : scoped_shape sc t c m w w2).
+      + intros c' m' b' X. cbn [is_scoped] in X. inversion X; subst c' m' b'.
+        assert (Sh : scoped_shape sc t c m body w w2).
         { destruct (run_acct nopw t _ _ _ _ Ra) as [evA [TA [FA HA]]].
           destruct (run_nomark nopw t _ _ _ _ (alg_nomark _ (raw_lock_ops (e_fuel e) m (alg_of (e_am e) s))) Ra) as [evA' [TA' FA']].
           assert (evA' = evA) by (rewrite TA in TA'; now apply app_inv_tail in TA'). subst evA'.
@@ -516,6 +517,7 @@ Section CallAcq2.
           assert (evN = evA) by (rewrite TA in TN; now apply app_inv_tail in TN). subst evN.
           exists wa, wb, evA, evR. split; [exact TA|]. split; [exact FA'|]. split; [exact FA|]. split; [exact FA''|]. split; [exact FN|]. split; [exact HA|].
           split; [intros x; rewrite (eff_raw _ _ _ Ea); now rewrite (shape_of_coll _ _ _ Hc)|].
+          split; [rewrite (shape_of_coll _ _ _ Hc); exact Rcl|].
           split; [exact Fb|]. split; [exact Tb|exact Ftl]. }
         destruct (existsb is_cpanic body); exact Sh.
       + apply clean_to_nobad, (ep_tr _ _ _ _ E2).
@@ -525,7 +527,7 @@ Section CallAcq2.
       rewrite (run_scoped_rest_blocked _ _ _ _ _ _ _ _ _ R1) in R. inversion R; subst out w'. clear R.
       constructor; cbn [api_fin snd stop_code]; try (intros H; discriminate H); try reflexivity.
       + intros c' m' f' _ H. discriminate H.
-      + intros c' m' _. apply (run_nomark nopw t _ _ _ _ (alg_nomark _ (raw_lock_ops (e_fuel e) m a)) R1).
+      + intros c' m' b' _. apply (run_nomark nopw t _ _ _ _ (alg_nomark _ (raw_lock_ops (e_fuel e) m a)) R1).
       + apply (raw_lock_nobad t m (e_am e) s (e_fuel e) w _ _ Ha ND Q Hf R1).
       + intros c' m' l' b' _ _. discriminate.
   Qed.
@@ -543,7 +545,7 @@ Section CallAcq2.
     - assert (Ep : effp w1 w1 (acq_all t m (kleaves s) (w_raw w)) (w_psn w1)).
       { constructor; auto. - apply (eff_raw _ _ _ E1). - exists []. split; [reflexivity|constructor]. }
       destruct (run_scoped_rest_quiet t m (e_am e) s lent body Ha ND skip w1 VUnit w1 (w_raw w) Q1 eq_refl Ep
-                  (fun x => eq_refl) Can) as [w2 [R2 [E2 [_ [_ [wb [evR [Fb [Tb Ftl]]]]]]]]].
+                  (fun x => eq_refl) Can) as [w2 [R2 [E2 [_ [_ [wb [evR [Rcl [Fb [Tb Ftl]]]]]]]]]].
       fold a in R2. rewrite R2 in R. inversion R; subst out w'. clear R.
       assert (Fin : stop_code (snd (api_fin e lc (AAcquire c m (FScopedTry lent body))
                                    (if existsb is_cpanic body then OPanic else ODone (VNat 0)))) = false).
@@ -554,8 +556,8 @@ Section CallAcq2.
       + intros _ x. rewrite (ep_raw _ _ _ _ E2). reflexivity.
       + intros c' m' f' _ H. destruct (existsb is_cpanic body); discriminate H.
       + intros _. apply (clean_trans w w1 w2); [apply (eff_tr _ _ _ E1)|apply (ep_tr _ _ _ _ E2)].
-      + intros c' m' X. cbn [is_scoped] in X. inversion X; subst c' m'.
-        assert (Sh : scoped_shape sc t c m w w2).
+      + intros c' m' b' X. cbn [is_scoped] in X. inversion X; subst c' m' b'.
+        assert (Sh : scoped_shape sc t c m body w w2).
         { destruct (run_acct nopw t _ _ _ _ R1) as [evA [TA [FA HA]]].
           destruct (run_nomark nopw t _ _ _ _ (alg_nomark _ (raw_try_ops m (alg_of (e_am e) s))) R1) as [evA' [TA' FA']].
           assert (evA' = evA) by (rewrite TA in TA'; now apply app_inv_tail in TA'). subst evA'.
@@ -565,6 +567,7 @@ Section CallAcq2.
           assert (evN = evA) by (rewrite TA in TN; now apply app_inv_tail in TN). subst evN.
           exists w1, wb, evA, evR. split; [exact TA|]. split; [exact FA'|]. split; [exact FA|]. split; [exact FA''|]. split; [exact FN|]. split; [exact HA|].
           split; [intros x; rewrite (eff_raw _ _ _ E1); now rewrite (shape_of_coll _ _ _ Hc)|].
+          split; [rewrite (shape_of_coll _ _ _ Hc); exact Rcl|].
           split; [exact Fb|]. split; [exact Tb|exact Ftl]. }
         destruct (existsb is_cpanic body); exact Sh.
       + apply clean_to_nobad, (clean_trans w w1 w2); [apply (eff_tr _ _ _ E1)|apply (ep_tr _ _ _ _ E2)].
@@ -576,7 +579,7 @@ Section CallAcq2.
       + intros _ x. rewrite (eff_raw _ _ _ E1). reflexivity.
       + intros c' m' f' _ H. discriminate H.
       + intros _. apply (eff_tr _ _ _ E1).
-      + intros c' m' _. apply (run_nomark nopw t _ _ _ _ (alg_nomark _ (raw_try_ops m (alg_of (e_am e) s))) R1).
+      + intros c' m' b' _. apply (run_nomark nopw t _ _ _ _ (alg_nomark _ (raw_try_ops m (alg_of (e_am e) s))) R1).
       + apply clean_to_nobad, (eff_tr _ _ _ E1).
       + intros c' m' l' b' _ _. discriminate.
   Qed.
@@ -597,7 +600,7 @@ Proof.
   - intros _ x. rewrite Ha. apply Hr.
   - intros c m f _ H. rewrite Hg in H. discriminate H.
   - intros _. exact Hc.
-  - intros c m X. rewrite Hsc in X. discriminate X.
+  - intros c m b X. rewrite Hsc in X. discriminate X.
   - now apply clean_to_nobad.
   - intros c m l b [X|X] _; subst o; discriminate Hsc.
 Qed.
@@ -632,7 +635,7 @@ Proof.
     + intros _ x. cbn [set_keyf w_raw raw_after]. rewrite G. cbn [g_mode g_items]. apply (eff_raw _ _ _ E1).
     + intros c m f X. discriminate X.
     + intros _. apply (eff_tr _ _ _ E1).
-    + intros c m X. discriminate X.
+    + intros c m b X. discriminate X.
     + apply clean_to_nobad, (eff_tr _ _ _ E1).
     + intros c m l b [X|X] _; discriminate X.
   - (* AGuardUnlock *)
@@ -645,7 +648,7 @@ Proof.
     + intros _ x. cbn [raw_after]. rewrite G. cbn [g_mode g_items]. apply (eff_raw _ _ _ E1).
     + intros c m f X. discriminate X.
     + intros _. apply (eff_tr _ _ _ E1).
-    + intros c m X. discriminate X.
+    + intros c m b X. discriminate X.
     + apply clean_to_nobad, (eff_tr _ _ _ E1).
     + intros c m l b [X|X] _; discriminate X.
   - (* AGuardForget *)
@@ -671,7 +674,7 @@ Proof.
       * intros _ x. cbn [set_keyf w_raw raw_after]. rewrite G. cbn [g_mode g_items]. apply (ep_raw _ _ _ _ E1).
       * intros c m f X. discriminate X.
       * intros _. apply (ep_tr _ _ _ _ E1).
-      * intros c m X. discriminate X.
+      * intros c m b X. discriminate X.
       * apply clean_to_nobad, (ep_tr _ _ _ _ E1).
       * intros c m l b [X|X] _; discriminate X.
     + injection Hp as Hp; subst p.
@@ -684,7 +687,7 @@ Proof.
       * intros _ x. cbn [raw_after]. rewrite G. destruct (haskey lc); reflexivity.
       * intros c m f X. discriminate X.
       * intros _. destruct (haskey lc); (exists []; split; [reflexivity|constructor]).
-      * intros c m X. discriminate X.
+      * intros c m b X. discriminate X.
       * destruct (haskey lc); (exists []; split; [reflexivity|constructor]).
       * intros c m l b [X|X] _; discriminate X.
   - (* AIsPoisoned *)
